@@ -7,7 +7,10 @@ set -u
 ID="$1"; RUNS="${2:-}"; SUF="${3:-}"
 SRC="${SEED_SRC:-/tmp/wt-$ID/_out}"; DST="/verif/seeded/$ID$SUF"
 [ -f "$SRC/patch.diff" ] || { echo "no patch.diff in $SRC"; exit 3; }
-mkdir -p "$DST"; cp "$SRC/patch.diff" "$SRC/demo.py" "$DST/" ; cp "$SRC/meta.json" "$DST/meta.agent.json" 2>/dev/null
+mkdir -p "$DST"
+if [ "$(realpath "$SRC")" != "$(realpath "$DST")" ]; then
+  cp "$SRC/patch.diff" "$SRC/demo.py" "$DST/"; cp "$SRC/meta.json" "$DST/meta.agent.json" 2>/dev/null
+fi  # re-verification of a kept change (SRC == DST) keeps its files, meta.agent.json included
 D="/dev/shm/seed-$ID-$$"; rm -rf "$D"; mkdir -p "$D"
 rsync -a --exclude .git --exclude _out /repo/ "$D/"
 cd "$D"
